@@ -167,8 +167,8 @@ def run(ctx, driver):
                 "recorded; distinct = distinct systems; non-trivial = at least one expected equality")
     rng = ctx.rng("family")
     cases = [c["case"] for c in ctx.corpus() if "case" in c]
-    cases += [family(rng) for _ in range(22 if quick else 250)]
-    results = pool.run_cases("harness.props.c11", "case_detect", cases, timeout=100 if quick else 400, init="_init_worker", deadline=ctx.deadline())
+    cases += [family(rng) for _ in range(ctx.n(22, 250))]
+    results = pool.run_cases("harness.props.c11", "case_detect", cases, timeout=ctx.n(100, 400), init="_init_worker", deadline=ctx.deadline())
     ops = []
     for case, res in zip(cases, results):
         ctx.evaluations += 1
